@@ -138,10 +138,11 @@ class DtnTimeField(UintField):
             return DtnTimeField.datetime_to_dtntime(x)
 
         elif isinstance(x, (str, bytes)):
-            return DtnTimeField.datetime_to_dtntime(
-                datetime.datetime.fromisoformat(x)
-                .replace(tzinfo=datetime.timezone.utc)
-            )
+            dtval = datetime.datetime.fromisoformat(x)
+            if dtval.tzinfo is None:
+                # text without a zone is taken as UTC
+                dtval = dtval.replace(tzinfo=datetime.timezone.utc)
+            return DtnTimeField.datetime_to_dtntime(dtval)
 
         return int(x)
 
